@@ -154,7 +154,19 @@ func specIntPayload(dst []byte, base int, it *IntItem, w int, cnt int) bool {
 //@ ensures [alias]  specSameOrFresh(result, old(dst))
 //@ ensures [len]    item.itemErr == nil && item.rawPtr == nil ==>
 //@                  len(result) == len(old(dst)) + 1 + specNLB(int(item.size)*int(item.byteSize)) + int(item.size)*int(item.byteSize)
-//@ ensures [hdr]    item.itemErr == nil && item.rawPtr == nil ==>
-//@                  specHdrAt(result, len(old(dst)), specIntFC(item.byteSize), int(item.size)*int(item.byteSize))
-//@ ensures [be]     item.itemErr == nil && item.rawPtr == nil ==>
-//@                  specIntPayload(result, len(old(dst))+1+specNLB(int(item.size)*int(item.byteSize)), item, int(item.byteSize), int(item.size))
+//@ ensures [hdr1]   item.itemErr == nil && item.rawPtr == nil && item.byteSize == 1 ==>
+//@                  specHdrAt(result, len(old(dst)), specIntFC(1), 1*int(item.size))
+//@ ensures [be1]    item.itemErr == nil && item.rawPtr == nil && item.byteSize == 1 ==>
+//@                  specIntPayload(result, len(old(dst))+1+specNLB(1*int(item.size)), item, 1, int(item.size))
+//@ ensures [hdr2]   item.itemErr == nil && item.rawPtr == nil && item.byteSize == 2 ==>
+//@                  specHdrAt(result, len(old(dst)), specIntFC(2), 2*int(item.size))
+//@ ensures [be2]    item.itemErr == nil && item.rawPtr == nil && item.byteSize == 2 ==>
+//@                  specIntPayload(result, len(old(dst))+1+specNLB(2*int(item.size)), item, 2, int(item.size))
+//@ ensures [hdr4]   item.itemErr == nil && item.rawPtr == nil && item.byteSize == 4 ==>
+//@                  specHdrAt(result, len(old(dst)), specIntFC(4), 4*int(item.size))
+//@ ensures [be4]    item.itemErr == nil && item.rawPtr == nil && item.byteSize == 4 ==>
+//@                  specIntPayload(result, len(old(dst))+1+specNLB(4*int(item.size)), item, 4, int(item.size))
+//@ ensures [hdr8]   item.itemErr == nil && item.rawPtr == nil && item.byteSize == 8 ==>
+//@                  specHdrAt(result, len(old(dst)), specIntFC(8), 8*int(item.size))
+//@ ensures [be8]    item.itemErr == nil && item.rawPtr == nil && item.byteSize == 8 ==>
+//@                  specIntPayload(result, len(old(dst))+1+specNLB(8*int(item.size)), item, 8, int(item.size))
